@@ -39,16 +39,17 @@ RULE = ("kinds: run (mode, batch size 1-4, 3-6 plates, crash schedule = one entr
         "against examine_output_dir_to_determine_current_iteration); crash_free (closed-form ideal run against the real "
         "uninterrupted run).  Non-trivial: at least one crash or a non-empty tree; distinct by case description.")
 THEOREMS = {
-    "C19_resume_correct": "under marker_last and the repaired examine (or batch size 1): after EVERY crash schedule the completed "
-                          "steps with the commands that produced them and their recorded selections are exactly the first k steps of the uninterrupted run",
-    "C19_step_safe": "same hypotheses, one call of run_next_* from any reachable tree: completed steps are kept unchanged, at most one is added, "
-                     "the only command launched is the uninterrupted run's command for the next index (never a completed step, never a skipped index)",
-    "C19_trace_safe": "same hypotheses, whole schedule: every command ever launched is the uninterrupted run's command for the first not yet completed step at that moment",
+    "C19_resume_correct": "marker last + repaired examine (or batch size 1): after EVERY crash schedule, in both modes, the completed steps with the "
+                          "commands that produced them and their recorded selections are exactly the first k steps of the uninterrupted run (retrospective: k <= n_plates)",
+    "C19_resume_correct_retro_prefix_of_crash_free": "same, retrospective mode: completed = firstn k crash_free",
+    "C19_step_safe": "same hypotheses, one more call from any reachable tree: completed steps kept unchanged, at most the next one added; a launched command is the "
+                     "uninterrupted run's command for the first incomplete step (no completed step re-run, no index skipped); the operator is never told to remove a completed step; no non-naming failure",
+    "C19_invariant": "reachable trees = completed steps 0..c-1 in lexicographic order with ideal contents + at most one of {empty next iteration directory, one incomplete directory at index c}",
+    "C19_uninterrupted_is_crash_free": "the closed form crash_free is what script_run produces without crashes (prospective: one invocation = one batch, batch <= plates)",
     "C19_inputs_from_predecessor": "in the uninterrupted retrospective run every step after the first reads the advanced screen of its immediate predecessor",
-    "C19_retro_bounded": "retrospective mode never completes more than n_plates steps (so the completed steps are a prefix of crash_free)",
-    "C19_invariant": "reachable trees have the shape: completed steps 0..c-1 in lexicographic order, plus at most one of {empty next iteration directory, one incomplete directory at index c}",
-    "C19_resume_refuted_empty_iter": "faithful (unrepaired) examine, batch size 2: a crash between the two makedirs levels makes the script delete and re-run a completed step",
-    "C19_resume_refuted_marker_early": "prospective mode, data-dependence-respecting order with the metadata first: a step without selection is taken as complete",
+    "C19_step_of_successor": "step indices advance lexicographically without gaps",
+    "C19_resume_refuted_empty_iter": "REFUTED for the examine of /repo today: batch size 2, crash between the two makedirs levels -> a completed step is deleted and launched again",
+    "C19_resume_refuted_marker_early": "REFUTED without marker_last even with the repair: prospective mode, metadata published first (data dependence allows it) -> step without selection counts as complete",
 }
 ASSUMPTIONS = [
     "no nextflow engine is available: the three workflows are represented by harness/fake_nextflow/nextflow, whose publications follow main.nf / the "
@@ -180,6 +181,31 @@ def read_tree(out):
     return sorted(res)
 
 
+def scan(out):
+    """cheap view of the tree: sorted [[i, [[j, set of published file names]...]]...] (no file is opened)"""
+    res = []
+    try:
+        its = os.listdir(out)
+    except OSError:
+        return res
+    for e in its:
+        m = re.fullmatch(r"iter_(-?\d+)", e)
+        p = os.path.join(out, e)
+        if not m or not os.path.isdir(p):
+            continue
+        pl = []
+        for q in os.listdir(p):
+            m2 = re.fullmatch(r"plate_(-?\d+)", q)
+            if m2 and os.path.isdir(os.path.join(p, q)):
+                try:
+                    names = set(os.listdir(os.path.join(p, q, NAME)))
+                except OSError:
+                    names = set()
+                pl.append([int(m2.group(1)), names])
+        res.append([int(m.group(1)), sorted(pl, key=lambda t: t[0])])
+    return sorted(res, key=lambda t: t[0])
+
+
 def write_tree(out, tree):
     os.makedirs(out, exist_ok=True)
     for i, plates in tree:
@@ -197,8 +223,8 @@ def write_tree(out, tree):
                         f.write(c)
 
 
-def marked(tree):
-    return [(i, j) for i, pls in tree for j, pd in pls if pd[6]]
+def marked(sc):
+    return [(i, j) for i, pls in sc for j, names in pls if FILES[6] in names]
 
 
 # --------------------------------------------------------------------------- running the real script under a schedule
@@ -239,10 +265,10 @@ class Runner:
     def norm(self, a):
         return str(a).replace(self.out, "$OUT").replace(self.inp, "$IN")
 
-    def context(self, tree):
-        return dict(empty_iters=[i for i, pls in tree if not pls],
-                    marker_early=[[i, j] for i, pls in tree for j, pd in pls if pd[6] and not pd[4]],
-                    marked=marked(tree))
+    def context(self, sc):
+        return dict(empty_iters=[i for i, pls in sc if not pls],
+                    marker_early=[[i, j] for i, pls in sc for j, names in pls if FILES[6] in names and FILES[4] not in names],
+                    marked=marked(sc))
 
     def emit(self, item):
         self.log.append(item)
@@ -252,9 +278,9 @@ class Runner:
         s = self.step_of_path(path)
         if s is None or not os.path.isdir(path):
             return
-        tree = read_tree(self.out)
-        ev = dict(type="delete", who=who, step=list(s), had_marker=s in marked(tree))
-        ev.update(self.context(tree))
+        sc = scan(self.out)
+        ev = dict(type="delete", who=who, step=list(s), had_marker=s in marked(sc))
+        ev.update(self.context(sc))
         self.events.append(ev)
         self.by.pop(s, None)
 
@@ -289,7 +315,7 @@ class Runner:
         outdir = o.get("--outdir")
         s = self.step_of_path(outdir)
         launch = self.parse_launch(cmd, o)
-        tree = read_tree(self.out)
+        sc = scan(self.out)
         inputs = {}
         for key in ("--screen", "--training_screen", "--test_screen"):
             if key in o:
@@ -298,7 +324,7 @@ class Runner:
                 except OSError:
                     inputs[key] = None
         ev = dict(type="launch", step=list(s) if s else None, argv=[self.norm(a) for a in cmd], inputs=inputs)
-        ev.update(self.context(tree))
+        ev.update(self.context(sc))
         self.events.append(ev)
         env = {"FAKE_NF_LOG": self.fakelog, "FAKE_NF_ORDER": ",".join(KINDS[k] for k in self.cur_order),
                "FAKE_NF_CRASH_AFTER": str(p), "FAKE_NF_PYTHON": sys.executable}
@@ -327,13 +353,13 @@ class Runner:
             rc = e.returncode
             raise
         finally:
-            pd = read_plate(outdir) if outdir and os.path.isdir(outdir) else None
-            present = [] if pd is None else [k for k in range(7) if pd[k] not in ([], 0)]
-            pubs = [k for k in self.cur_order if k in present]
+            sc = scan(self.out)
+            names = dict(((i, j), nm) for i, pls in sc for j, nm in pls).get(s, set())
+            pubs = [k for k in self.cur_order if FILES[k] in names]
             if s is not None:
                 self.by[s] = launch
             self.emit([4, s[0] if s else -1, s[1] if s else -1, launch, pubs, int(rc == 0)])
-            self.events.append(dict(type="after", marked=marked(read_tree(self.out))))
+            self.events.append(dict(type="after", marked=marked(sc)))
 
     def parse_launch(self, cmd, o):
         md = o.get("--mode")
@@ -402,7 +428,7 @@ class Runner:
         tree = read_tree(self.out)
         self.final = [[i, [[j, pd + [opt(self.by.get((i, j)))]] for j, pd in pls]] for i, pls in tree]
         ev = dict(type="end")
-        ev.update(self.context(tree))
+        ev.update(self.context(scan(self.out)))
         self.events.append(ev)
         return self
 
@@ -461,6 +487,14 @@ def judge(mode, bs, n, sched, run, cf):
                 fails.append(("completed-step-reexecuted", "step %s, completed earlier, is executed again" % (s,), ev))
             if sorted(mk) != [step_of(bs, c) for c in range(len(mk))] or s != step_of(bs, len(mk)):
                 fails.append(("index-skipped", "step %s launched while the completed steps are %s" % (s, sorted(mk)), ev))
+            if mode == "retrospective" and s is not None and s != (0, 0) and s[0] >= 0 and 0 <= s[1] < bs:
+                # absolute clause: started from the advanced screen of the immediate predecessor
+                pi, pj = step_of(bs, s[0] * bs + s[1] - 1)
+                want_scr = "$OUT/iter_%d/plate_%d/%s/advanced_screen.h5" % (pi, pj, NAME)
+                o = dict(zip(ev["argv"][:-1], ev["argv"][1:]))
+                got = o.get("--training_screen", o.get("--screen"))
+                if got != want_scr:
+                    fails.append(("not-from-predecessor", "step %s started from %s, not from the output of its predecessor %s" % (s, got, want_scr), ev))
             ref = cf["launches"].get(s)
             if ref is None:
                 fails.append(("inputs-differ", "step %s is never executed by the uninterrupted run" % (s,), ev))
@@ -555,7 +589,7 @@ def mk_sched(T, crashes, tail=3):
 
 def gen(rng, tier):
     quick = tier == "quick"
-    every = 200 if quick else 40   # one case in `every` spawns the fake as a real subprocess through PATH
+    every = 200 if quick else 150   # one case in `every` spawns the fake as a real subprocess through PATH
     configs = [(m, bs, n) for m in MODES for bs in (1, 2, 3, 4) for n in (3, 4, 5, 6)]
     for m, bs, n in configs:
         if m == "retrospective" or bs <= n:   # a prospective batch larger than the number of plates cannot be selected at all
@@ -584,18 +618,21 @@ def gen(rng, tier):
             for gap2 in range(0, T - a + 2):
                 for k2 in range(0, kmax + 1):
                     yield [(a, k), (gap2, k2)]
-    small = [(m, bs, n) for m, bs, n in configs if n <= (3 if quick else 4) and bs <= 3]
+    # exhaustive pairs (canonical order): thorough tier, retrospective with 3-4 plates and prospective with 3 plates
+    # (prospective runs hardly depend on the number of plates), every batch size; C19_ALL_PAIRS=1 enumerates all
+    # 32 configurations (about 67,000 cases, ~25 min).  The other configurations are sampled, with random orders.
+    everything = os.environ.get("C19_ALL_PAIRS", "") == "1"
     for m, bs, n in configs:
         T = total_steps(m, bs, n)
         allp = list(pairs(m, bs, n))
-        exhaustive = (not quick) and (m, bs, n) in small
-        pick = allp if exhaustive else rng.sample(allp, min(len(allp), 14 if quick else 400))
+        exhaustive = (not quick) and (everything or (n <= 4 if m == "retrospective" else n == 3))
+        pick = allp if exhaustive else rng.sample(allp, min(len(allp), 14 if quick else 250))
         for (a, k), (g2, k2) in pick:
             o1, o2 = (CANON, CANON) if exhaustive else (rng.choice(orders_for(m)), rng.choice(orders_for(m)))
             cnt += 1
             d = dict(kind="run", mode=m, bs=bs, n=n, sched=mk_sched(T, [(a, k, o1), (g2, k2, o2)]), spawn=cnt % every == 0)
             yield d
-            if repaired_ok and cnt % (4 if quick else 2) == 0:
+            if repaired_ok and cnt % (4 if quick else 5) == 0:
                 yield dict(d, kind="run-repaired", spawn=False)
     # triples and longer schedules, random
     for _ in range(40 if quick else 600):
